@@ -351,7 +351,7 @@ Qed.
 (* a read-only open restricted to given versions (OnlyVersions; s3db_changes, TraceHistory):
    looks under merged/ then current/, fails on anything missing *)
 Theorem open_hist_spec vsn when order corder vs ts b muts tr b' r tr' muts' :
-  versions_ok_in b [PMerged; PCur] (apply_order_multi order vsn) vs ts ->
+  versions_ok_in b [PCur; PMerged] (apply_order_multi order vsn) vs ts ->
   exec0 muts b (open c true (Some vsn) when order corder) tr b' r tr' muts' ->
   b' = b /\ exists h, r = Done h /\ view_fold ts = Some (h_tree h) /\ h_ro h = true.
 Proof.
